@@ -339,6 +339,85 @@ pub fn http_pcap(frames: &[Vec<u8>], filter: Option<huginn_net_http::FilterConfi
     r?;
     Ok(rx.try_iter().map(|o| http_res(&o)).collect())
 }
+/// One analyzer object used for two captures in a row (`parallel`: with_config + init_pool before each capture, as a
+/// caller must do for the TCP analyzer, whose pool is shut down at the end of a capture). All results of both runs.
+pub fn tcp_pcap_reuse(frames: &[Vec<u8>], filter: Option<huginn_net_tcp::FilterConfig>, cap: usize, parallel: bool) -> Result<Vec<TcpRes>, String> {
+    let p = scratch_pcap(frames);
+    let path = p.to_str().unwrap_or("").to_string();
+    let mut a = if parallel { huginn_net_tcp::HuginnNetTcp::with_config(Some(db_arc()), cap, 2, frames.len() + 8, 2, 5) } else { huginn_net_tcp::HuginnNetTcp::new(Some(db_arc()), cap) }.map_err(|e| e.to_string())?;
+    if let Some(f) = filter {
+        a = a.with_filter(f);
+    }
+    let mut rxs = vec![];
+    let mut r = Ok(());
+    for _ in 0..2 {
+        let (tx, rx) = std::sync::mpsc::channel();
+        rxs.push(rx);
+        if parallel {
+            a.init_pool(tx.clone()).map_err(|e| e.to_string())?;
+        }
+        r = r.and(a.analyze_pcap(&path, tx, None).map_err(|e| e.to_string()));
+    }
+    let _ = std::fs::remove_file(&p);
+    r?;
+    drop(a);
+    Ok(rxs.iter().flat_map(|rx| rx.iter()).map(|o| tcp_res(&o)).collect())
+}
+pub fn http_pcap_reuse(frames: &[Vec<u8>], filter: Option<huginn_net_http::FilterConfig>, cap: usize, parallel: bool) -> Result<Vec<HttpRes>, String> {
+    let p = scratch_pcap(frames);
+    let path = p.to_str().unwrap_or("").to_string();
+    let mut a = if parallel { huginn_net_http::HuginnNetHttp::with_config(Some(db_arc()), cap, 2, frames.len() + 8, 2, 5) } else { huginn_net_http::HuginnNetHttp::new(Some(db_arc()), cap) }.map_err(|e| e.to_string())?;
+    if let Some(f) = filter {
+        a = a.with_filter(f);
+    }
+    let mut rxs = vec![];
+    let mut r = Ok(());
+    for _ in 0..2 {
+        let (tx, rx) = std::sync::mpsc::channel();
+        rxs.push(rx);
+        if parallel {
+            a.init_pool(tx.clone()).map_err(|e| e.to_string())?;
+        }
+        r = r.and(a.analyze_pcap(&path, tx, None).map_err(|e| e.to_string()));
+    }
+    let _ = std::fs::remove_file(&p);
+    r?;
+    drop(a);
+    Ok(rxs.iter().flat_map(|rx| rx.iter()).map(|o| http_res(&o)).collect())
+}
+pub fn tls_pcap_reuse(frames: &[Vec<u8>], filter: Option<huginn_net_tls::FilterConfig>, cap: usize, parallel: bool) -> Result<Vec<TlsRes>, String> {
+    let p = scratch_pcap(frames);
+    let path = p.to_str().unwrap_or("").to_string();
+    let mut a = if parallel { huginn_net_tls::HuginnNetTls::with_config_and_max_connections(2, frames.len() + 8, 2, 5, cap) } else { huginn_net_tls::HuginnNetTls::new(cap) };
+    if let Some(f) = filter {
+        a = a.with_filter(f);
+    }
+    let mut rxs = vec![];
+    let mut r = Ok(());
+    for _ in 0..2 {
+        let (tx, rx) = std::sync::mpsc::channel();
+        rxs.push(rx);
+        if parallel {
+            a.init_pool(tx.clone()).map_err(|e| e.to_string())?;
+        }
+        r = r.and(a.analyze_pcap(&path, tx, None).map_err(|e| e.to_string()));
+    }
+    let _ = std::fs::remove_file(&p);
+    r?;
+    drop(a);
+    Ok(rxs.iter().flat_map(|rx| rx.iter()).map(|o| tls_out(&o)).collect())
+}
+/// `with_config` WITHOUT `init_pool`: the HTTP analyzer falls back to its sequential path and its own flow table
+pub fn http_pcap_configured_sequential(frames: &[Vec<u8>], db: std::sync::Arc<Database>, cap: usize, workers: usize) -> Result<Vec<HttpRes>, String> {
+    let p = scratch_pcap(frames);
+    let (tx, rx) = std::sync::mpsc::channel();
+    let mut a = huginn_net_http::HuginnNetHttp::with_config(Some(db), cap, workers, 64, 8, 5).map_err(|e| e.to_string())?;
+    let r = a.analyze_pcap(p.to_str().unwrap_or(""), tx, None).map_err(|e| e.to_string());
+    let _ = std::fs::remove_file(&p);
+    r?;
+    drop(a);
+    Ok(rx.iter().map(|o| http_res(&o)).collect())
+}
 /// `with_config` + (`init_pool`) + `analyze_pcap`: the analyzers' own parallel mode, end to end. The queue is large enough
 /// for the whole trace; the results are everything the channel delivers until every sender is gone.
 pub fn tcp_pcap_parallel(frames: &[Vec<u8>], cap: usize, workers: usize, batch: usize, timeout: u64) -> Result<Vec<TcpRes>, String> {
